@@ -1,8 +1,10 @@
 package harness
 
 import (
+	"errors"
 	"fmt"
 	"sync"
+	"syscall"
 	"time"
 
 	"go.nanomsg.org/mangos/v3"
@@ -29,6 +31,11 @@ var c11OK = map[string][]error{
 }
 
 func c11Allowed(op string, err error) bool {
+	// a synchronous dial over tcp / ipc / tls+tcp to an address nobody listens
+	// on fails with the operating system's error, not with mangos' own
+	if op == "Dial" && (errors.Is(err, syscall.ECONNREFUSED) || errors.Is(err, syscall.ENOENT)) {
+		return true
+	}
 	for _, e := range c11OK[op] {
 		if e == err {
 			return true
@@ -57,6 +64,9 @@ var c11Opts = []struct {
 	{mangos.OptionSubscribe, []interface{}{"", "a"}},
 	{mangos.OptionUnsubscribe, []interface{}{"", "a"}},
 	{mangos.OptionRaw, []interface{}{true}},
+	{mangos.OptionKeepAliveTime, []interface{}{time.Second, time.Duration(0)}},
+	{mangos.OptionKeepAlive, []interface{}{true, false}},
+	{mangos.OptionNoDelay, []interface{}{true, false}},
 }
 
 type c11Op struct {
@@ -67,7 +77,7 @@ type c11Op struct {
 func c11Run(w *W) {
 	kind := allKinds[w.Choose(simrt.SShape, len(allKinds))]
 	ntask := 3 + w.Choose(simrt.SShape, 4)
-	tran := []string{"msg", "inproc"}[w.Choose(simrt.SShape, 2)]
+	tran := []string{"msg", "inproc", "tcp", "ipc", "tls+tcp"}[w.Choose(simrt.SShape, 5)] // tcp / ipc / tls+tcp: the real endpoint code on the simulated network
 	w.SetShape("kind", kind)
 	w.SetShape("tasks", ntask)
 	w.SetShape("tran", tran)
@@ -106,13 +116,14 @@ func c11Run(w *W) {
 		}
 	})
 	laddr := w.Addr(tran)
-	l0, err := s.NewListener(laddr, nil)
+	absent := w.Addr(tran) // nobody ever listens here
+	l0, err := s.NewListener(laddr, w.EpOpts(laddr, true, nil))
 	if err != nil || l0.Listen() != nil {
 		w.Failf("HARNESS/listen", "%v", err)
 		return
 	}
 	listeners = append(listeners, l0)
-	if d0, err := s.NewDialer(laddr+"y", map[string]interface{}{mangos.OptionDialAsynch: true}); err == nil {
+	if d0, err := s.NewDialer(absent, w.EpOpts(absent, false, map[string]interface{}{mangos.OptionDialAsynch: true})); err == nil {
 		dialers = append(dialers, d0)
 		_ = d0.Dial()
 	}
@@ -233,7 +244,7 @@ func c11Run(w *W) {
 						}
 					}
 				case "Dial":
-					d, err := s.NewDialer(laddr+"x", map[string]interface{}{mangos.OptionDialAsynch: true})
+					d, err := s.NewDialer(absent, w.EpOpts(absent, false, map[string]interface{}{mangos.OptionDialAsynch: true}))
 					check("Dial", err)
 					if err == nil {
 						mu.Lock()
@@ -242,7 +253,10 @@ func c11Run(w *W) {
 						check("Dial", d.Dial())
 					}
 				case "Listen":
-					l, err := s.NewListener(w.Addr(tran), nil)
+					mu.Lock()
+					na := w.Addr(tran)
+					mu.Unlock()
+					l, err := s.NewListener(na, w.EpOpts(na, true, nil))
 					check("Listen", err)
 					if err == nil {
 						mu.Lock()
@@ -322,13 +336,19 @@ func c11Run(w *W) {
 						_ = ps.SetOption(mangos.OptionSendDeadline, 2*time.Millisecond)
 						// (any of the socket's listeners: inproc waiters of different
 						// addresses share one condition variable)
+						// (Address takes the transport listener's lock: never call
+						// into the library with the harness' own mutex held)
 						mu.Lock()
-						target := laddr
+						var tl mangos.Listener
 						if n := len(listeners); n > 0 {
-							target = listeners[op.b%n].Address()
+							tl = listeners[op.b%n]
 						}
 						mu.Unlock()
-						_ = ps.DialOptions(target, map[string]interface{}{mangos.OptionDialAsynch: false})
+						target := laddr
+						if tl != nil {
+							target = tl.Address()
+						}
+						_ = ps.DialOptions(target, w.EpOpts(target, false, map[string]interface{}{mangos.OptionDialAsynch: false}))
 						if op.a%2 == 0 {
 							_ = ps.Send([]byte("hello"))
 						}
